@@ -114,3 +114,82 @@ Fixpoint count_pair (x : nat * nat) (l : list (nat * nat)) : nat :=
   | [] => 0
   | y :: r => (if Nat.eqb (fst x) (fst y) && Nat.eqb (snd x) (snd y) then 1 else 0) + count_pair x r
   end.
+
+(* ------------------------------------------------------------------------------------------
+   Lock discipline of the hand-over lists.
+   The steps above are atomic because the code performs each of them inside a critical section
+   of a reader/writer lock (globalMetadata.updateLock for the rotated list, UnrotatedInfoLock for
+   the unrotated info).  What follows models ONE such lock as Go's sync.RWMutex behaves:
+   writer-preferring — Lock() first announces the writer (from then on every new RLock() waits),
+   then waits for the readers that are already inside to leave.  A goroutine is a program of lock
+   actions; the programs of the real functions are read from the Go source on every run
+   (harness/cmd/c11/locks.go) and judged by [nonreentrant] below. *)
+Inductive lact := RAcq | RRel | WAcq | WRel.
+Inductive lmode := LFree | LHeldR | LHeldW.
+
+(* a program never acquires the lock while it holds it (in either mode), never releases what it
+   does not hold, and ends with the lock released *)
+Fixpoint lscan (m : lmode) (p : list lact) : bool :=
+  match p with
+  | [] => match m with LFree => true | _ => false end
+  | a :: r =>
+      match m, a with
+      | LFree, RAcq => lscan LHeldR r
+      | LHeldR, RRel => lscan LFree r
+      | LFree, WAcq => lscan LHeldW r
+      | LHeldW, WRel => lscan LFree r
+      | _, _ => false
+      end
+  end.
+Definition nonreentrant (p : list lact) : bool := lscan LFree p.
+
+(* one goroutine: what it still has to do, how many read holds it has, whether it holds the
+   write lock, whether it has announced Lock() and waits for the readers to drain *)
+Record thr := { tprog : list lact; hr : nat; hw : bool; pend : bool }.
+Definition thr_init (p : list lact) : thr := {| tprog := p; hr := 0; hw := false; pend := false |}.
+Definition tfinished (t : thr) : bool := match tprog t with [] => true | _ => false end.
+
+Definition wbusy (ts : list thr) : bool := existsb (fun t => hw t || pend t) ts.
+Fixpoint readers (ts : list thr) : nat := match ts with [] => 0 | t :: r => hr t + readers r end.
+
+(* can goroutine t take its next action in the state ts (t is one of ts)? *)
+Definition enabled (ts : list thr) (t : thr) : bool :=
+  match tprog t with
+  | [] => false
+  | RAcq :: _ => negb (wbusy ts)                       (* RLock waits while a writer holds OR waits *)
+  | RRel :: _ => Nat.ltb 0 (hr t)
+  | WAcq :: _ => if pend t then Nat.eqb (readers ts) 0 (* announced: waits for the readers inside *)
+                 else negb (wbusy ts)                  (* writers exclude each other (w mutex) *)
+  | WRel :: _ => hw t
+  end.
+
+Definition fire (t : thr) : thr :=
+  match tprog t with
+  | [] => t
+  | RAcq :: p => {| tprog := p; hr := S (hr t); hw := hw t; pend := pend t |}
+  | RRel :: p => {| tprog := p; hr := pred (hr t); hw := hw t; pend := pend t |}
+  | WAcq :: p => if pend t then {| tprog := p; hr := hr t; hw := true; pend := false |}
+                 else {| tprog := tprog t; hr := hr t; hw := hw t; pend := true |}
+  | WRel :: p => {| tprog := p; hr := hr t; hw := false; pend := pend t |}
+  end.
+
+(* a schedule names the goroutine that moves next; naming one that cannot move changes nothing *)
+Definition lstep (ts : list thr) (i : nat) : list thr :=
+  match nth_error ts i with
+  | Some t => if enabled ts t then set_nth i (fire t) ts else ts
+  | None => ts
+  end.
+Definition lrun (ts : list thr) (sched : list nat) : list thr := fold_left lstep sched ts.
+
+(* every goroutine runs any sequence of calls; a call is the lock program of one function *)
+Definition linit (threads : list (list (list lact))) : list thr :=
+  map (fun calls => thr_init (concat calls)) threads.
+
+Definition all_finished (ts : list thr) : bool := forallb tfinished ts.
+Definition stuck (ts : list thr) : bool := negb (all_finished ts) && negb (existsb (enabled ts) ts).
+
+(* counting goroutines / holds (used to state mutual exclusion) *)
+Fixpoint sumf (f : thr -> nat) (ts : list thr) : nat := match ts with [] => 0 | t :: r => f t + sumf f r end.
+Definition busyn (t : thr) : nat := if hw t || pend t then 1 else 0.
+Definition hwn (t : thr) : nat := if hw t then 1 else 0.
+Definition writers_inside (ts : list thr) : nat := sumf hwn ts.
